@@ -115,7 +115,10 @@ def toUTCString (k : Fmt) (t : Int) : Bytes := fmtFields k (calcF t) (t % 1000).
 /-! ## Date::Date(const String&) -/
 
 /-- read `s[i]`; index `length` is the NUL terminator; beyond it the read is out of bounds -/
-def rd (s : Bytes) (i : Nat) : Option UInt8 := if i ≤ s.length then some (s.getD i 0) else none
+def rd (s : Bytes) (i : Nat) : Option UInt8 :=
+  match s.drop i with
+  | c :: _ => some c
+  | [] => if i ≤ s.length then some 0 else none
 
 def isDigit (c : UInt8) : Bool := 48 ≤ c && c ≤ 57
 def isSpace (c : UInt8) : Bool := c == 32 || c == 10 || c == 13 || c == 9
